@@ -229,6 +229,17 @@ class FuncADLIndexError(Exception):
         Exception.__init__(self, msg)
 
 
+def _is_operator_with_lambda(node: ast.AST, operator: str) -> bool:
+    "`Select(seq, lambda x: ...)` and the like - what a following operator can be combined with"
+    return (
+        is_call_of(node, operator)
+        and isinstance(node, ast.Call)
+        and len(node.args) == 2
+        and len(node.keywords) == 0
+        and isinstance(node.args[1], ast.Lambda)
+    )
+
+
 def _is_method_call_on_first(node: ast.Call):
     """
     Determine if this is a call like First(seq).method(args).
@@ -348,9 +359,9 @@ class simplify_chained_calls(FuncADLNodeTransformer):
             return function_call("Select", [self.visit(source), transform])
 
         parent_select = self.visit(source)
-        if is_call_of(parent_select, "Select"):
+        if _is_operator_with_lambda(parent_select, "Select"):
             return self.visit_Select_of_Select(parent_select, transform)
-        elif is_call_of(parent_select, "SelectMany"):
+        elif _is_operator_with_lambda(parent_select, "SelectMany"):
             return self.visit_Select_of_SelectMany(parent_select, transform)
         else:
             selection = self.visit(transform)
@@ -421,9 +432,9 @@ class simplify_chained_calls(FuncADLNodeTransformer):
         if not isinstance(selection, ast.Lambda):
             return function_call("SelectMany", [self.visit(args[0]), selection])
         parent_select = self.visit(args[0])
-        if is_call_of(parent_select, "SelectMany"):
+        if _is_operator_with_lambda(parent_select, "SelectMany"):
             return self.visit_SelectMany_of_SelectMany(parent_select, selection)
-        elif is_call_of(parent_select, "Select"):
+        elif _is_operator_with_lambda(parent_select, "Select"):
             return self.visit_SelectMany_of_Select(parent_select, selection)
         else:
             return function_call("SelectMany", [parent_select, self.visit(selection)])
@@ -521,11 +532,11 @@ class simplify_chained_calls(FuncADLNodeTransformer):
             return function_call("Where", [self.visit(source), filter])
 
         parent_where = self.visit(source)
-        if is_call_of(parent_where, "Where"):
+        if _is_operator_with_lambda(parent_where, "Where"):
             return self.visit_Where_of_Where(parent_where, filter)
-        elif is_call_of(parent_where, "Select"):
+        elif _is_operator_with_lambda(parent_where, "Select"):
             return self.visit_Where_of_Select(parent_where, filter)
-        elif is_call_of(parent_where, "SelectMany"):
+        elif _is_operator_with_lambda(parent_where, "SelectMany"):
             return self.visit_Where_of_SelectMany(parent_where, filter)
         else:
             f = self.visit(filter)
